@@ -5,15 +5,31 @@ Four case families (``mode``):
 ``sample``    callables from an exactly rounded expression family, handed to
               ``space.element`` and to the wrapped dual-use sampling function
               in every calling style; oracle: point-by-point scalar
-              evaluation, bit-for-bit.
+              evaluation, bit-for-bit.  In two of five cases the *same
+              callable object* (or its space) has been used before: it is
+              first discretized in 1-3 variant spaces (same domain with a
+              narrower / wider / complex dtype in both orders,
+              ``space.astype``, another shape, another domain, the same
+              space again, other keyword parameters, a sibling callable of
+              the same code in the same space), every result is checked, and
+              the case proper must not depend on that history; elements
+              sampled earlier stay intact and separate.
 ``interp``    nearest / linear / per-axis interpolators on generated grids
               and value arrays against ``vlib.ref.interp`` (brute-force
               nearest node, right neighbour on ties, multilinear blend with
               the zero node one cell outside), for mesh / point-array /
               single-point input, ``out=``, all value dtypes; affine
               exactness; node reproduction.
-``resample``  ``Resampling`` onto the same / another grid of the same domain.
-``deform``    ``linear_deform`` (interpolation at displaced grid points).
+``resample``  ``Resampling`` onto the same / another grid of the same domain,
+              built directly or as ``inverse`` / ``adjoint`` of the opposite
+              resampling, optionally after a call with another element.
+``deform``    ``linear_deform`` (interpolation at displaced grid points) and
+              the deformation operators (real and complex templates, default
+              and explicit ``domain=`` / ``templ_space=``), optionally after
+              a call with another argument.
+
+Every evaluation is followed by an "inputs unchanged" clause (evaluation
+points, node values, coordinate vectors, templates, displacement fields).
 """
 import itertools
 
@@ -42,10 +58,15 @@ LEVEL_TEXT = ('Generated-input search over grids (1-3 axes, uniform and '
               'strings for nearest), per-axis scheme combinations, evaluation '
               'points (nodes, exact midpoints, interior, up to one cell '
               'outside) and all calling conventions (single point, (d, N) '
-              'array, sparse mesh, out=); sampling of callables in eleven '
+              'array, sparse mesh, out=); sampling of callables in twenty '
               'calling styles compared bit-for-bit with point-wise '
-              'evaluation; Resampling and linear_deform against the same '
-              'model. Exploration, not proof.')
+              'evaluation, also after the same callable object has been '
+              'discretized in other spaces (other dtype / shape / domain / '
+              'keyword parameters) so that results cannot depend on the '
+              'history of the callable or the space; Resampling (also via '
+              'inverse / adjoint, repeated calls) and linear_deform / the '
+              'deformation operators against the same model; inputs are '
+              'left unchanged. Exploration, not proof.')
 LEVEL_NOTE = ('Trusted: NumPy (long double), Hypothesis, vlib/ref/interp.py '
               '(never imports odl), IEEE-exact +,-,*,/,sqrt of NumPy and '
               'Python floats. Grid coordinates are taken from the library '
@@ -66,6 +87,13 @@ TOLERANCES = {
               '|b| + sum|a_i| max|c_i|',
     'conventions': 'single point / (d,N) array / mesh / out= results are '
                    'bitwise identical',
+    'history': 'elements sampled after earlier uses of the same callable '
+               'object are bitwise equal to point-by-point evaluation in the '
+               'dtype of their own space; earlier elements / results are '
+               'bitwise unchanged afterwards and share no memory with later '
+               'ones',
+    'inputs': 'evaluation points, node values, coordinate vectors, templates '
+              'and displacement fields are bitwise unchanged by evaluation',
 }
 ASSUMPTIONS = [
     'evaluation points at most one cell (the outermost spacing) outside the '
@@ -76,14 +104,25 @@ ASSUMPTIONS = [
     'output type from the first point)',
     'point arrays are passed as (d, N) (points are columns), 1-d also as '
     '(N,) with N >= 2',
+    'a callable is reused only in spaces whose dtype can hold its values '
+    '(complex-valued callables in complex spaces only; a vectorize wrapper '
+    'with explicit otypes only in spaces of that dtype)',
+    'regions of the known findings C15-K3 / K7 / K8 (in-place evaluation in '
+    '1-d of ufuncs, keyword-only out, lists with ufunc members) are '
+    'exercised in every other such case only, so that the remaining clauses '
+    'keep being checked there',
     'integer value arrays with linear / per-axis schemes (F17, fixed) are '
     'compared with the float blend; out= is not exercised there (out must '
     'have the integer dtype of the values and cannot hold the blend)',
 ]
-RULE = ('Hypothesis draws a mode and its data; non-trivial = at least one '
-        'oracle comparison evaluated and (>= 2 axes or non-uniform axis or '
-        'mixed per-axis scheme or a tie / outside point present or a '
-        'non-native calling style); distinct by sha1 of the case descriptor')
+RULE = ('Hypothesis draws a mode (sample 2/7, interp 3/7, resample 1/7, '
+        'deform 1/7) and its data; 2/5 of the sample cases carry 1-3 prior '
+        'uses of the same callable object, 1/2 of the resample / deformation '
+        'operator cases a prior call with another argument; non-trivial = at '
+        'least one oracle comparison evaluated and (>= 2 axes or non-uniform '
+        'axis or mixed per-axis scheme or a tie / outside point present or a '
+        'non-native calling style or a prior use); distinct by sha1 of the '
+        'case descriptor')
 
 REJECT = (ValueError, TypeError, IndexError)
 CONSTS = [0.0, 1.0, -1.0, 2.0, 0.5, -0.25, 3.0, 1.5, -2.5, 0.1, 7.0, 0.3]
@@ -204,7 +243,56 @@ def _space(draw, min_n=1, max_n=5, dtypes=('float64', 'float32',
 STYLES = ['native', 'vectorize', 'vectorize_otypes', 'out', 'out', 'dual',
           'dual', 'const', 'kwargs', 'kwargs', 'kwargs_vectorize',
           'callable_obj', 'native1d', 'native1d', 'ufunc', 'ufunc',
-          'lambda_subset', 'vector', 'vectorize_history', 'identity']
+          'lambda_subset', 'vector', 'vectorize_history', 'identity',
+          'dual_kwonly', 'vectorize_obj', 'vector']
+
+# Prior uses of the *same* callable object (or of its space) before the case
+# proper: what `space.element(f)` returns must not depend on them.
+NO_FUNC2 = ('const', 'ufunc', 'identity', 'vectorize_history')
+REUSE_KINDS = ['dtype', 'dtype', 'astype', 'shape', 'domain', 'same',
+               'kwargs', 'func2']
+SPACE_DTYPES = ['float64', 'float32', 'complex128', 'complex64']
+
+
+@st.composite
+def _reuse_steps(draw, sd, style, cplx_out, params, use, depth):
+    """1-3 prior uses.  Every step names the space variant the callable is
+    discretized in first (same domain / other dtype in both directions,
+    ``space.astype``, other shape, other domain, the very same space, other
+    keyword parameters) or a second callable of the same kind discretized in
+    the same space."""
+    base = sd['dtype']
+    if style == 'vectorize_otypes':
+        # the output type is part of the callable itself
+        dtypes = [base]
+    elif cplx_out:
+        dtypes = ['complex128', 'complex64']
+    else:
+        dtypes = list(SPACE_DTYPES)
+    others = [t for t in dtypes if t != base]
+    steps = []
+    for _ in range(draw(st.sampled_from([1, 1, 2, 3]))):
+        kind = draw(st.sampled_from(REUSE_KINDS))
+        if kind in ('dtype', 'astype') and not others:
+            kind = 'shape'
+        if kind == 'kwargs' and not params:
+            kind = 'dtype' if others else 'domain'
+        step = {'kind': kind, 'dtype': base,
+                'order': draw(st.sampled_from([None, None, 'C', 'F']))}
+        if kind in ('dtype', 'astype'):
+            step['dtype'] = draw(st.sampled_from(others))
+        elif kind in ('shape', 'domain'):
+            step['axis'] = draw(st.integers(0, 2))
+            if draw(st.booleans()):
+                step['dtype'] = draw(st.sampled_from(dtypes))
+        elif kind == 'kwargs':
+            step['pass_params'] = draw(st.sampled_from(['all', 'some',
+                                                        'none']))
+            step['shift'] = draw(st.sampled_from([0.5, -1.0, 2.0]))
+        elif kind == 'func2':
+            step['real'] = draw(_expr(set(use), set(), depth))
+        steps.append(step)
+    return steps
 
 
 @st.composite
@@ -279,8 +367,32 @@ def _sample_case(draw):
             for _ in range(k)]
         d['vector_form'] = draw(st.sampled_from(['list', 'tuple_func',
                                                  'list_out']))
+        # the value shape may be given explicitly for lists as well
+        d['vector_out_dtype'] = draw(st.booleans())
+        if ndim == 1 and draw(st.booleans()):
+            # 1-d specials: NumPy ufuncs as list members; a tuple-valued
+            # function of ``x`` itself (not ``x[0]``)
+            if d['vector_form'] == 'list':
+                d['comps'][draw(st.integers(0, k - 1))] = [
+                    'ufunc', draw(st.sampled_from(sorted(UFUNC_EXPR)))]
+            elif d['vector_form'] == 'tuple_func':
+                d['vector_form'] = 'tuple_func_x1d'
     d['npoints'] = draw(st.integers(1, 5))
     d['seed'] = draw(st.integers(0, 10 ** 6))
+    d['reuse'] = []
+    if style != 'vector' and draw(st.integers(0, 4)) < 2:
+        steps = draw(_reuse_steps(sd, style, cplx and d['imag'] is not None,
+                                  params, use, depth))
+        for step in steps:
+            if step['kind'] == 'func2' and style in NO_FUNC2:
+                step['kind'] = 'same'
+                step.pop('real', None)
+        d['reuse'] = steps
+    # 1-d only: the point array is also passed flat, shape (N,), to callables
+    # that document it (the vectorisation decorator)
+    d['flat1d'] = draw(st.booleans())
+    d['default_out_dtype'] = draw(st.integers(0, 3)) == 0
+    d['order'] = draw(st.sampled_from([None, None, 'C', 'F']))
     return d
 
 
@@ -437,13 +549,16 @@ def _resample_case(draw):
             'tshape': tshape, 'tnob': tnob, 'interp': interp,
             'x': draw(vs.element_descs(sd, orders=('C', 'C', 'F'), lo=-100,
                                        hi=100, scale=10.0)),
-            'out': draw(st.booleans())}
+            'out': draw(st.booleans()),
+            'direction': draw(st.sampled_from(['forward', 'forward',
+                                               'inverse', 'adjoint'])),
+            'prior_call': draw(st.booleans())}
 
 
 @st.composite
 def _deform_case(draw):
     sd = draw(_space(min_n=2, max_n=4, dtypes=('float64', 'float64',
-                                                'float32'),
+                                                'float32', 'complex128'),
                      kinds=('discr',), max_ndim=3))
     ndim = len(sd['shape'])
     size = int(np.prod(sd['shape'], dtype=int))
@@ -464,6 +579,8 @@ def _deform_case(draw):
                                          'fixed_disp_inverse',
                                          'fixed_disp_adjoint'])),
             'out': draw(st.booleans()),
+            'prior_call': draw(st.booleans()),
+            'spaces_explicit': draw(st.booleans()),
             'disp_order': draw(st.sampled_from(['C', 'F', 'strided'])),
             'x': draw(vs.element_descs(sd, orders=('C', 'F', 'strided'),
                                        lo=-100, hi=100, scale=10.0))}
@@ -552,22 +669,28 @@ def _vec_value(real, imag, X, params, cplx):
     return re + 1j * eval_vec(imag, X, params)
 
 
+def passed_params(desc, mode, shift):
+    """Keyword arguments handed over at call time (they differ from the
+    defaults in the signature) and the resulting effective parameters."""
+    defaults = dict(desc['params'])
+    passed = {}
+    if desc['style'] in ('kwargs', 'kwargs_vectorize'):
+        names = sorted(defaults)
+        chosen = names if mode == 'all' else names[:1] if mode == 'some' \
+            else []
+        for nm in chosen:
+            passed[nm] = float(defaults[nm]) + shift
+    effective = dict(defaults)
+    effective.update(passed)
+    return passed, effective
+
+
 def make_callable(desc, cplx):
     """The callable handed to ODL, and the keyword arguments to pass."""
     style = desc['style']
     real, imag = desc['real'], desc['imag']
     defaults = dict(desc['params'])
-    passed = {}
-    if style in ('kwargs', 'kwargs_vectorize'):
-        # defaults differ from the values passed at call time
-        mode = desc['pass_params']
-        names = sorted(defaults)
-        chosen = names if mode == 'all' else names[:1] if mode == 'some' \
-            else []
-        for nm in chosen:
-            passed[nm] = float(defaults[nm]) + 0.5
-    effective = dict(defaults)
-    effective.update(passed)
+    passed, effective = passed_params(desc, desc['pass_params'], 0.5)
 
     def idx(x):
         return lambda i: x[i]
@@ -626,6 +749,21 @@ def make_callable(desc, cplx):
                 return val
             out[:] = val
             return out
+    elif style == 'dual_kwonly':
+        def f(x, *, out=None):
+            val = _vec_value(real, imag, idx(x), defaults, cplx)
+            if out is None:
+                return val
+            out[:] = val
+            return out
+    elif style == 'vectorize_obj':
+        scal_cplx = cplx and imag is not None
+
+        class Scal(object):
+            # no __name__: the decorator has to provide one
+            def __call__(self, x):
+                return ref.value_at(real, imag, x, defaults, scal_cplx)
+        f = odl.util.vectorize(Scal())
     elif style == 'kwargs':
         a0, b0 = defaults['a'], defaults['b']
 
@@ -692,6 +830,149 @@ def _points_array(vecs):
 # --------------------------------------------------------------------------
 # mode: sample
 
+VECTORIZE_STYLES = ('vectorize', 'vectorize_otypes', 'kwargs_vectorize',
+                    'vectorize_history', 'vectorize_obj')
+
+
+def variant_space(sd, space, step):
+    """The space of a prior use: a variant of the space of the case."""
+    kind = step['kind']
+    if kind in ('same', 'kwargs', 'func2'):
+        return space
+    if kind == 'astype':
+        return space.astype(step['dtype'])
+    v = dict(sd, dtype=step['dtype'])
+    if kind == 'dtype':
+        return build.build_space(v)
+    ndim = len(build.space_shape(sd))
+    ax = step['axis'] % ndim
+    if sd['kind'] == 'discr':
+        if kind == 'shape':
+            v['shape'] = [n + (i == ax) for i, n in enumerate(sd['shape'])]
+        else:
+            v['min'] = [m + 0.5 * (i == ax) for i, m in enumerate(sd['min'])]
+            v['max'] = [m + 1.0 * (i == ax) for i, m in enumerate(sd['max'])]
+        return build.build_space(v)
+    # non-uniform: append a node / move the nodes of one axis
+    coords = [list(c) for c in sd['coords']]
+    if kind == 'shape':
+        cand = [i for i, c in enumerate(coords) if len(c) > 1]
+        if not cand:
+            return build.build_space(v)
+        ax = cand[step['axis'] % len(cand)]
+        coords[ax].append(coords[ax][-1] + 0.75)
+    else:
+        coords[ax] = [c + 0.5 for c in coords[ax]]
+        for key in ('min', 'max'):
+            if sd.get(key) is not None:
+                v[key] = [None if m is None else m + 0.5 * (i == ax)
+                          for i, m in enumerate(sd[key])]
+    v['coords'] = coords
+    return build.build_space(v)
+
+
+def _sample_once(space_k, f, passed, what, order=None):
+    try:
+        elem = space_k.element(f, order=order, **passed)
+    except REJECT as e:
+        return None, '{} raises {}: {}'.format(what, type(e).__name__, e)
+    if elem not in space_k:
+        return None, '{}: result is not an element of the space'.format(what)
+    if order is not None and not elem.asarray().flags[order + '_CONTIGUOUS']:
+        return None, '{}: element(f, order={!r}) is not {}-contiguous'.format(
+            what, order, order)
+    return elem, None
+
+
+def history_signature(desc, cplx, space_desc_fn, passed, expected, clause,
+                      sig_tail, detail, earlier):
+    """Classify a sampling failure that happened after earlier uses of the
+    callable / space: if a fresh callable object sampled in a freshly built
+    space gives the expected values, the earlier uses are the cause."""
+    if earlier:
+        f2 = make_callable(desc, cplx)[0]
+        elem, err = _sample_once(space_desc_fn(), f2, passed, 'fresh')
+        if err is None and _same_values(elem.asarray(), expected):
+            return Violation(
+                'C15|sample|history-dependent|' + sig_tail,
+                'space.element(f) depends on earlier uses {} of the same '
+                'callable / space (a fresh callable in a fresh space gives '
+                'the function values): {}'.format(earlier, detail))
+    if not earlier and desc['style'] == 'ufunc':
+        # a NumPy ufunc is one module-level object shared by all cases
+        detail += (' [the callable is the module-level object np.{}: if this '
+                   'descriptor passes when replayed alone, the result depends '
+                   'on uses of that object by earlier cases of the same '
+                   'process]'.format(desc['ufunc']))
+    return Violation('C15|sample|{}|{}'.format(clause, sig_tail), detail)
+
+
+def run_prior_uses(desc, sd, space, f, passed, cplx, sig_tail, strata):
+    """Discretize the callable of the case (or a sibling callable) in the
+    variant spaces named by ``desc['reuse']``; every result must be the
+    function values at the nodes of *that* space in *its* dtype.  Returns
+    the elements with their expected values and the kinds used."""
+    real, imag = desc['real'], desc['imag']
+    if desc['style'] == 'ufunc':
+        real, imag = UFUNC_EXPR[desc['ufunc']], None
+    kept, earlier = [], []
+    for step in desc.get('reuse') or []:
+        kind = step['kind']
+        space_k = variant_space(sd, space, step)
+        if kind == 'astype' and (
+                space_k.dtype != np.dtype(step['dtype']) or
+                space_k.partition != space.partition):
+            raise Violation(
+                'C15|sample|astype-space|{}->{}'.format(sd['dtype'],
+                                                        step['dtype']),
+                'space.astype({!r}) is {!r}'.format(step['dtype'], space_k))
+        f_k, passed_k, real_k = f, passed, real
+        effective_k = passed_params(desc, desc['pass_params'], 0.5)[1]
+        desc_k = desc
+        if kind == 'kwargs':
+            passed_k, effective_k = passed_params(desc, step['pass_params'],
+                                                  step['shift'])
+        elif kind == 'func2':
+            real_k = step['real']
+            if desc['params']:
+                real_k = ['add', ['mul', ['p', 'a'], real_k], ['p', 'b']]
+            desc_k = dict(desc, real=real_k)
+            f_k = make_callable(desc_k, cplx)[0]
+        vecs_k = [np.array(v, dtype=float, copy=True)
+                  for v in space_k.grid.coord_vectors]
+        expected_k = ref.sample(real_k, imag, vecs_k, effective_k,
+                                space_k.dtype)
+        label = 'prior use {} ({}, dtype {}, shape {})'.format(
+            len(earlier) + 1, kind, space_k.dtype, space_k.shape)
+        elem, err = _sample_once(space_k, f_k, passed_k, label,
+                                 step.get('order'))
+        if step.get('order'):
+            strata.append('order:' + step['order'])
+        if err is None and not _same_values(elem.asarray(), expected_k):
+            err = '{}: {}; real={!r} imag={!r}'.format(
+                label, _first_diff(elem.asarray(), expected_k), real_k, imag)
+        if err is not None:
+            part = space_k.partition
+            dt_k = space_k.dtype
+            raise history_signature(
+                desc_k, cplx,
+                lambda: odl.DiscretizedSpace(
+                    part, odl.tensor_space(part.shape, dtype=dt_k)),
+                passed_k, expected_k, 'element-values', sig_tail, err,
+                list(earlier))
+        kept.append((elem, expected_k, label))
+        earlier.append('{}:{}'.format(kind, space_k.dtype))
+        strata.append('reuse:' + kind)
+        if kind in ('dtype', 'astype'):
+            a, b = np.dtype(step['dtype']), np.dtype(sd['dtype'])
+            strata.append('reuse-dtype:' + (
+                'narrow-then-wide' if a.itemsize < b.itemsize else
+                'wide-then-narrow' if a.itemsize > b.itemsize else
+                'real-then-complex' if b.kind == 'c' else
+                'complex-then-real'))
+    return kept, earlier
+
+
 def run_sample(desc):
     sd = desc['space']
     space = build.build_space(sd)
@@ -720,29 +1001,52 @@ def run_sample(desc):
         strata.append('one-point-axis')
     sig_tail = '{}|{}'.format(style, 'cplx' if cplx else 'real')
 
+    # (0) earlier uses of the same callable object in other / the same
+    # spaces: the case proper must not depend on them
+    prior, earlier = run_prior_uses(desc, sd, space, f, passed, cplx,
+                                    sig_tail, strata)
+    if prior:
+        strata.append('reuse:any')
+
+    def fresh_space():
+        return build.build_space(sd)
+
     # (1) space.element(callable)
+    order = desc.get('order')
+    if order:
+        strata.append('order:' + order)
     try:
-        elem = space.element(f, **passed)
+        elem = space.element(f, order=order, **passed)
     except REJECT as e:
-        raise Violation('C15|sample|element-raises|' + sig_tail,
-                        '{}: {} (real={!r} imag={!r})'.format(
-                            type(e).__name__, e, real, imag))
+        raise history_signature(
+            desc, cplx, fresh_space, passed, expected, 'element-raises',
+            sig_tail, '{}: {} (real={!r} imag={!r})'.format(
+                type(e).__name__, e, real, imag), earlier)
     if elem not in space:
         raise Violation('C15|sample|element-space|' + sig_tail,
                         'result is not an element of the space')
     got = elem.asarray()
+    if order and not got.flags[order + '_CONTIGUOUS']:
+        raise Violation('C15|sample|element-order|' + sig_tail,
+                        'element(f, order={!r}) is not {}-contiguous'.format(
+                            order, order))
     if not _same_values(got, expected):
-        raise Violation('C15|sample|element-values|' + sig_tail,
-                        '{}; real={!r} imag={!r} params={!r}'.format(
-                            _first_diff(got, expected), real, imag,
-                            effective))
+        raise history_signature(
+            desc, cplx, fresh_space, passed, expected, 'element-values',
+            sig_tail, '{}; real={!r} imag={!r} params={!r}'.format(
+                _first_diff(got, expected), real, imag, effective), earlier)
     if len(passed) and style.startswith('kwargs'):
         strata.append('kwargs-passed:{}'.format(len(passed)))
 
     # (2) the wrapped dual-use function, called directly
-    func = sampling_function(f, space.domain, out_dtype=space.dtype)
+    if desc.get('default_out_dtype') and sd['dtype'] == 'float64':
+        # out_dtype is optional: a single callable is float64-valued then
+        func = sampling_function(f, space.domain)
+        strata.append('out_dtype:default')
+    else:
+        func = sampling_function(f, space.domain, out_dtype=space.dtype)
     mesh = space.meshgrid
-    checks = 1
+    checks = 1 + len(prior)
 
     def compare(label, got, want):
         if not isinstance(got, np.ndarray):
@@ -758,11 +1062,27 @@ def run_sample(desc):
                                 _first_diff(got, want.astype(got.dtype)),
                                 real, imag))
 
-    r = point_collocation(func, mesh, **passed)
+    try:
+        r = point_collocation(func, mesh, **passed)
+    except TypeError as e:
+        # (1-d: the wrapper retries with the first mesh vector, the
+        # original error is then the context of the final one)
+        if 'out_dtype:default' in strata and style == 'out' and (
+                'NoneType' in str(e) or
+                'NoneType' in str(getattr(e, '__context__', ''))):
+            raise Violation(
+                'C15|sample|default-out_dtype-raises|inplace-only',
+                'sampling_function(f, domain) without out_dtype, f(x, out) '
+                'in-place only, evaluated out of place: TypeError: {}'
+                ''.format(e))
+        raise
     compare('mesh', r, expected)
-    inplace = style != 'ufunc' or desc['seed'] % 2 == 0
+    # regions of known findings are exercised in every other case only, so
+    # that the remaining clauses keep being checked there
+    kwonly_1d = style == 'dual_kwonly' and ndim == 1
+    inplace = style != 'ufunc' and not kwonly_1d or desc['seed'] % 2 == 0
     if not inplace:
-        strata.append('ufunc:out-of-place-only')
+        strata.append(style + ':out-of-place-only')
 
     def call_inplace(arg, out):
         try:
@@ -773,9 +1093,17 @@ def run_sample(desc):
                                 'in-place evaluation of a ufunc sampling '
                                 'function: {}'.format(e))
             raise
+        except TypeError as e:
+            if kwonly_1d and 'positional argument' in str(e):
+                raise Violation(
+                    'C15|sample|inplace-raises|kwonly-out|1d',
+                    'in-place evaluation of f(x, *, out=None) in 1-d: '
+                    'TypeError: {}'.format(e))
+            raise
 
     out = np.full(shape, 777, dtype=dtype)
-    r = call_inplace(mesh, out) if style == 'ufunc' and inplace else \
+    r = call_inplace(mesh, out) if (style == 'ufunc' or kwonly_1d) and \
+        inplace else \
         point_collocation(func, mesh, out=out, **passed) if inplace else out
     if inplace:
         out_mesh = np.array(out, copy=True)
@@ -786,12 +1114,17 @@ def run_sample(desc):
         compare('mesh-out', out, expected)
     # point array (d, N), points are columns
     pts = _points_array(vecs)
+    pts_in = pts.copy()          # the library's copy
     flat = expected.ravel()
     if style == 'native1d' and pts.shape[1] > 1 and desc['seed'] % 2:
-        arr_in = pts[0]          # 1-d, function of x itself: (N,) array
+        arr_in = pts_in[0]       # 1-d, function of x itself: (N,) array
         strata.append('array:1d-flat')
+    elif style in VECTORIZE_STYLES and ndim == 1 and pts.shape[1] > 1 and \
+            desc.get('flat1d'):
+        arr_in = pts_in[0]       # the decorator documents flat 1-d input
+        strata.append('array:1d-flat-vectorize')
     else:
-        arr_in = pts
+        arr_in = pts_in
     r = func(arr_in, **passed)
     compare('array', r, flat)
     if inplace:
@@ -838,6 +1171,10 @@ def run_sample(desc):
                                   cplx) for k in range(2)]).astype(dtype)
     compare('no-bounds-check', r, want)
     checks += 2
+    if not np.array_equal(pts_in, pts):
+        raise Violation('C15|sample|input-modified|' + sig_tail,
+                        'evaluating the sampling function changed the point '
+                        'array passed in')
     # (3) the new element owns its data: writing to it must not change the
     # sampling grid of the space (last, because it destroys the element)
     shared = any(np.shares_memory(elem.asarray(), cv)
@@ -850,8 +1187,20 @@ def run_sample(desc):
                 'writing to space.element(f) changed grid.coord_vectors[{}] '
                 'from {} to {} (shares memory: {}); real={!r}'.format(
                     i, v0.tolist(), np.asarray(cv).tolist(), shared, real))
+    # (4) elements created earlier are separate objects: sampling again (and
+    # writing to the last element) left them alone
+    arrays = [e.asarray() for e, _, _ in prior] + [elem.asarray()]
+    for i, (e, want_k, label) in enumerate(prior):
+        if any(np.shares_memory(arrays[i], a) for a in arrays[i + 1:]):
+            raise Violation('C15|sample|elements-share-memory|' + sig_tail,
+                            label + ' shares memory with an element sampled '
+                            'later')
+        if not _same_values(arrays[i], want_k):
+            raise Violation('C15|sample|earlier-element-changed|' + sig_tail,
+                            '{} changed after later sampling: {}'.format(
+                                label, _first_diff(arrays[i], want_k)))
     nontriv = (ndim >= 2 or style not in ('native', 'const') or
-               sd['kind'] != 'discr')
+               sd['kind'] != 'discr' or bool(prior))
     return Outcome('ok', strata=strata, nontrivial=nontriv,
                    notes={'sample_checks': checks})
 
@@ -864,13 +1213,19 @@ def run_sample_vector(desc, space, vecs, strata):
     k = len(comps)
     strata.append('vector:' + form)
     shape = tuple(len(v) for v in vecs)
-    expected = np.stack([ref.sample(c, None, vecs, {}, 'float64')
+    has_ufunc = any(c[0] == 'ufunc' for c in comps)
+    expected = np.stack([ref.sample(UFUNC_EXPR[c[1]] if c[0] == 'ufunc' else
+                                    c, None, vecs, {}, 'float64')
                          for c in comps])
     sig_tail = 'vector-' + form
+    if has_ufunc:
+        strata.append('vector:ufunc-member')
 
     def native(c):
         if c[0] == 'c':
             return c[1]
+        if c[0] == 'ufunc':
+            return getattr(np, c[1])
         return lambda x: eval_vec(c, lambda i: x[i], {})
 
     def native_out(c):
@@ -881,11 +1236,21 @@ def run_sample_vector(desc, space, vecs, strata):
             out[:] = eval_vec(c, lambda i: x[i], {})
         return g
 
+    lkw = {}
+    if desc.get('vector_out_dtype') and form in ('list', 'list_out'):
+        lkw['out_dtype'] = (float, (k,))
+        strata.append('vector:out_dtype-given')
     if form == 'list':
-        func = sampling_function([native(c) for c in comps], space.domain)
+        func = sampling_function([native(c) for c in comps], space.domain,
+                                 **lkw)
     elif form == 'list_out':
         func = sampling_function([native_out(c) for c in comps],
-                                 space.domain)
+                                 space.domain, **lkw)
+    elif form == 'tuple_func_x1d':
+        def vf(x):
+            # 1-d: a function of x itself
+            return tuple(eval_vec(c, lambda i: x, {}) for c in comps)
+        func = sampling_function(vf, space.domain, out_dtype=(float, (k,)))
     else:
         def vf(x):
             return tuple(eval_vec(c, lambda i: x[i], {}) for c in comps)
@@ -898,10 +1263,14 @@ def run_sample_vector(desc, space, vecs, strata):
         if label == 'array' and ndim == 1 and pts.shape[1] == 1:
             continue
         region = 'mixed-shapes'
-        if form == 'tuple_func':
-            shapes = [np.shape(v) for v in vf(arg)]
+        if form in ('tuple_func', 'tuple_func_x1d'):
+            # (a 1-d mesh reaches the function as a (1, n) array)
+            seen = arg[0][None, ...] if form == 'tuple_func_x1d' and \
+                isinstance(arg, tuple) else arg
+            shapes = [np.shape(v) for v in vf(seen)]
             if all(sh == shapes[0] for sh in shapes) and \
-                    shapes[0] != want.shape[1:]:
+                    shapes[0] != want.shape[1:] and \
+                    shapes[0] != (1,) + want.shape[1:]:
                 region = 'same-partial-shapes'
             strata.append('vector-shapes:' + region)
         try:
@@ -910,7 +1279,8 @@ def run_sample_vector(desc, space, vecs, strata):
                 func(arg, out=np.full(want.shape, 777.0))
         except REJECT as e:
             raise Violation(
-                'C15|sample|vector-raises|{}|{}'.format(form, region),
+                'C15|sample|vector-raises|{}|{}'.format(
+                    form.replace('_x1d', ''), region),
                 '{} input: {}: {}; comps={!r}'.format(label,
                                                      type(e).__name__, e,
                                                      comps))
@@ -921,8 +1291,20 @@ def run_sample_vector(desc, space, vecs, strata):
                 '{}; comps={!r}'.format(
                     _first_diff(np.asarray(r), want) if isinstance(
                         r, np.ndarray) else type(r), comps))
+        if has_ufunc and desc['seed'] % 2:
+            # region of a known finding: in place in every other case only
+            strata.append('vector:ufunc-member-out-of-place-only')
+            continue
         out = np.full(want.shape, 777.0)
-        r = func(arg, out=out)
+        try:
+            r = func(arg, out=out)
+        except ValueError as e:
+            if has_ufunc and 'non-broadcastable output' in str(e):
+                raise Violation(
+                    'C15|sample|inplace-raises|ufunc-in-list|1d',
+                    'in-place evaluation of a list of sampling functions '
+                    'with a ufunc member: {}'.format(e))
+            raise
         if not bool(np.all(out == want)):
             raise Violation(
                 'C15|sample|{}-out-values|{}'.format(label, sig_tail),
@@ -1080,17 +1462,34 @@ def run_interp(desc):
         {'f': 'real', 'c': 'cplx', 'i': 'int', 'u': 'int',
          'U': 'str'}[vkind])
     form = desc['coord_form']
-    coord_arg = coords if form == 'array' else [c.tolist() for c in coords] \
-        if form == 'list' else tuple(coords)
+    # the library gets its own copies of everything (`coords`, `values`,
+    # `arr` below stay pristine for the reference model)
+    coord_arg = [np.array(c, copy=True) for c in coords]
     if form == 'list':
-        coord_arg = [np.array(c) for c in coord_arg]
-    interp = make_interpolator(desc, values, coord_arg)
+        coord_arg = [np.array(c.tolist()) for c in coord_arg]
+    elif form == 'tuple':
+        coord_arg = tuple(coord_arg)
+    values_in, values = values, np.array(values, copy=True)
+    interp = make_interpolator(desc, values_in, coord_arg)
 
     pts = [np.array(p, dtype=float) for p in desc['pts']]
-    mesh = _mesh(pts)
+    mesh = _mesh([p.copy() for p in pts])
     mshape = tuple(len(p) for p in pts)
     arr = _points_array(pts)
     npts = arr.shape[1]
+    lib_inputs = [('node values', values_in, values)] + \
+        [('mesh vector', m, p.reshape(m.shape)) for m, p in zip(mesh, pts)] + \
+        [('coordinate vector', c, c0) for c, c0 in zip(coord_arg, coords)]
+
+    def inputs_intact():
+        """Evaluation leaves the evaluation points, the node values and
+        the coordinate vectors alone."""
+        for what, now, before in lib_inputs:
+            now = np.asarray(now)
+            if now.shape != before.shape or not bool(np.all(now == before)):
+                raise Violation('C15|interp|input-modified|' + sig_tail,
+                                'evaluating the interpolator changed the {}'
+                                ''.format(what))
 
     # --- mesh input
     try:
@@ -1113,6 +1512,7 @@ def run_interp(desc):
         raise Violation('C15|interp|dtype|' + sig_tail,
                         'result dtype {} for values {}'.format(
                             res_mesh.dtype, values.dtype))
+    inputs_intact()
     flat = res_mesh.ravel()
     for j in range(npts):
         compare_interp(flat[j], values, coords, schemes, arr[:, j].tolist(),
@@ -1125,13 +1525,16 @@ def run_interp(desc):
         perm = perm[::-1]
     elif desc['perm'] == 'roll':
         perm = np.roll(perm, 1)
-    arr_in = np.ascontiguousarray(arr[:, perm])
+    arr_p = np.ascontiguousarray(arr[:, perm])
+    arr_in = arr_p.copy()
+    lib_inputs.append(('point array', arr_in, arr_p))
     if ndim == 1 and desc['perm'] == 'id':
         arg = arr_in[0].tolist()       # 1-d: a plain list of numbers
         strata.append('array:1d-list')
     else:
         arg = arr_in
     res_arr = interp(arg)
+    inputs_intact()
     if not isinstance(res_arr, np.ndarray) or res_arr.shape != (npts,):
         raise Violation('C15|interp|array-shape|' + sig_tail,
                         '{} points gave {!r}'.format(
@@ -1154,12 +1557,12 @@ def run_interp(desc):
         raise Violation('C15|interp|{}|{}'.format(clause, sig_tail),
                         label + ': ' + _first_diff(got, want))
 
-    conventions_agree(res_arr, flat[perm], arr_in, 'array-vs-mesh', 'array')
+    conventions_agree(res_arr, flat[perm], arr_p, 'array-vs-mesh', 'array')
     strata.append('perm:' + desc['perm'])
 
     # --- out=
     int_blend = vkind in 'iu' and kind != 'nearest'   # F17 region, if fixed
-    for label, arg_o, want, cols in (('array', arr_in, flat[perm], arr_in),
+    for label, arg_o, want, cols in (('array', arr_in, flat[perm], arr_p),
                                      ('mesh', mesh, res_mesh, arr)):
         if int_blend:
             break       # out must have the integer dtype of the values
@@ -1171,6 +1574,7 @@ def run_interp(desc):
                              np.shares_memory(r, out))):
             raise Violation('C15|interp|out-identity|' + sig_tail,
                             '{}: result is not out'.format(label))
+        inputs_intact()
         conventions_agree(out, want, cols, 'out-values', 'out=' + label)
 
     # --- single points
@@ -1204,8 +1608,10 @@ def run_interp(desc):
     # 1-d: (1, N) array as well
     if ndim == 1:
         r = interp(arr_in.reshape(1, -1))
-        conventions_agree(r, flat[perm], arr_in, 'array-vs-mesh',
+        inputs_intact()
+        conventions_agree(r, flat[perm], arr_p, 'array-vs-mesh',
                           '(1, N) array')
+    inputs_intact()
 
     # --- affine exactness of linear interpolation inside the hull
     if desc.get('affine') is not None and vkind in 'fc':
@@ -1284,9 +1690,57 @@ def run_resample(desc):
               'schemes:' + ('mixed' if mixed else schemes[0])]
     sig_tail = '{}|{}'.format(desc['target'],
                               'mixed' if mixed else schemes[0])
-    op = odl.Resampling(dom, ran, desc['interp'])
+    direction = desc.get('direction', 'forward')
+    strata.append('direction:' + direction)
+    if direction == 'forward':
+        op = odl.Resampling(dom, ran, desc['interp'])
+    else:
+        # documented: inverse / adjoint are the resampling in the opposite
+        # direction (with the same interpolation)
+        back = odl.Resampling(ran, dom, desc['interp'])
+        op = back.inverse if direction == 'inverse' else back.adjoint
+        if not isinstance(op, odl.Resampling) or op.domain != dom or \
+                op.range != ran:
+            raise Violation('C15|resample|{}-spaces|{}'.format(
+                direction, 'mixed' if mixed else schemes[0]),
+                            '{} of Resampling(ran, dom) maps {!r} -> {!r}'
+                            ''.format(direction, getattr(op, 'domain', None),
+                                      getattr(op, 'range', None)))
+    want_interp = schemes[0] if not mixed else tuple(schemes)
+    if tuple(op.interp_byaxis) != tuple(schemes) or op.interp != want_interp:
+        raise Violation('C15|resample|interp-attribute|{}|{}'.format(
+            direction, 'mixed' if mixed else schemes[0]),
+            'interp={!r}: interp_byaxis {!r}, interp {!r}'.format(
+                desc['interp'], op.interp_byaxis, op.interp))
     x = build.build_element(dom, sd, desc['x'])
     xv = np.array(x.asarray(), copy=True)
+    coords = [np.array(c, dtype=float, copy=True)
+              for c in dom.grid.coord_vectors]
+    tcoords = [np.array(c, dtype=float, copy=True)
+               for c in ran.grid.coord_vectors]
+
+    def grids_intact():
+        for sp, ref_c in ((dom, coords), (ran, tcoords)):
+            for c, c0 in zip(sp.grid.coord_vectors, ref_c):
+                if not np.array_equal(np.asarray(c), c0):
+                    raise Violation(
+                        'C15|resample|grid-modified|' + sig_tail,
+                        'applying the operator changed the sampling grid of '
+                        'a space: {} -> {}'.format(c0.tolist(),
+                                                   np.asarray(c).tolist()))
+
+    prior = None
+    if desc.get('prior_call'):
+        # the operator was applied to another element before
+        try:
+            prior = op(dom.element(-0.5 * xv + 1))
+        except ValueError as e:
+            if not (str(e).startswith(RAGGED_MSG) and ndim > 1 and
+                    ran.shape[0] == 1):
+                raise
+        if prior is not None:
+            prior_v = np.array(prior.asarray(), copy=True)
+        strata.append('prior-call')
     try:
         y = op(x)
     except ValueError as e:
@@ -1296,6 +1750,7 @@ def run_resample(desc):
                 'Resampling onto a grid of shape {} raises: {}'.format(
                     ran.shape, e))
         raise
+    grids_intact()
     if y not in ran:
         raise Violation('C15|resample|range|' + sig_tail,
                         'result not in the range')
@@ -1303,6 +1758,12 @@ def run_resample(desc):
     if not _same_values(x.asarray(), xv):
         raise Violation('C15|resample|input-modified|' + sig_tail,
                         'input element changed')
+    if prior is not None and (
+            np.shares_memory(prior.asarray(), y.asarray()) or
+            not _same_values(prior.asarray(), prior_v)):
+        raise Violation('C15|resample|earlier-result-changed|' + sig_tail,
+                        'the result of an earlier call changed with / shares '
+                        'memory with the result of the next call')
     if desc['out']:
         yo = ran.element()
         yo.asarray()[...] = 55
@@ -1314,8 +1775,7 @@ def run_resample(desc):
             raise Violation('C15|resample|out-values|' + sig_tail,
                             _first_diff(yo.asarray(), got))
         strata.append('out')
-    coords = [np.asarray(c, dtype=float) for c in dom.grid.coord_vectors]
-    tcoords = [np.asarray(c, dtype=float) for c in ran.grid.coord_vectors]
+        grids_intact()
     n = 0
     strict = ref.is_lattice(coords + tcoords)
     if desc['target'] == 'same':
@@ -1353,8 +1813,11 @@ def run_deform(desc):
             for dk, s in zip(desc['disp8'], sides)]
     order = desc.get('disp_order', 'C')
 
+    cplx = np.dtype(sd['dtype']).kind == 'c'
+    rspace = space.real_space if cplx else space
+
     def laid_out(a):
-        a = a.astype(space.dtype)
+        a = a.astype(rspace.dtype)
         if order == 'F':
             return np.asfortranarray(a)
         if order == 'strided':
@@ -1364,7 +1827,8 @@ def run_deform(desc):
             return view
         return a
 
-    tb = space.tangent_bundle
+    # displacements are real, also for complex templates
+    tb = rspace.tangent_bundle
     field = tb.element([tb[i].element(laid_out(d))
                         for i, d in enumerate(disp)])
     zero = all(not np.any(d) for d in disp)
@@ -1378,9 +1842,20 @@ def run_deform(desc):
     if desc.get('interp_form') == 'tuple':
         interp_arg = tuple(interp_arg)
     via = desc.get('via', 'function')
+    if cplx and via == 'fixed_disp_adjoint':
+        via = 'fixed_disp'
     strata.append('via:' + via)
     strata.append('schemes-by-axis:' + ''.join(sc[0] for sc in schemes))
+    field_v = [np.array(a, copy=True) for a in _leaf_arrays(field)]
+    coords = [np.array(c, dtype=float, copy=True)
+              for c in space.grid.coord_vectors]
     got = linear_deform(x, field, interp=interp_arg)
+    if not _same_values(x.asarray(), xv) or not all(
+            _same_values(a, b) for a, b in zip(_leaf_arrays(field), field_v)):
+        raise Violation('C15|deform|input-modified|linear_deform|' +
+                        ('mixed' if mixed else schemes[0]),
+                        'linear_deform changed the template or the '
+                        'displacement field')
     if not isinstance(got, np.ndarray) or got.shape != space.shape:
         raise Violation('C15|deform|shape|' + sig_tail,
                         'returned {!r}'.format(getattr(got, 'shape',
@@ -1394,11 +1869,16 @@ def run_deform(desc):
     if zero and factor is None and not _same_values(got, xv):
         raise Violation('C15|deform|identity|' + sig_tail,
                         'zero displacement: ' + _first_diff(got, xv))
-    coords = [np.asarray(c, dtype=float) for c in space.grid.coord_vectors]
+    for c, c0 in zip(space.grid.coord_vectors, coords):
+        if not np.array_equal(np.asarray(c), c0):
+            raise Violation('C15|deform|grid-modified|' + sig_tail,
+                            'deforming changed the sampling grid of the '
+                            'space: {} -> {}'.format(c0.tolist(),
+                                                     np.asarray(c).tolist()))
     pts = _points_array(coords)
     moved = pts.copy()
     for i in range(ndim):
-        moved[i] = moved[i] + sign * np.asarray(field[i].asarray(),
+        moved[i] = moved[i] + sign * np.asarray(field_v[i],
                                                 dtype=float).ravel()
     strict = ref.is_lattice(coords + [moved])
     strata.append('lattice:' + ('strict' if strict else 'generic'))
@@ -1441,18 +1921,44 @@ def run_deform(desc):
                    notes={'deform_comparisons': n})
 
 
+def _leaf_arrays(x):
+    """Arrays of an element of a discretized space or of a power space."""
+    if hasattr(x, 'parts'):
+        return [np.asarray(p.asarray()) for p in x.parts]
+    return [np.asarray(x.asarray())]
+
+
 def deform_operator(desc, via, space, x, field, interp_arg, schemes, func_res,
                     sig_tail, strata):
     """The deformation operators; returns (values, sign of the displacement
     seen by the template, multiplicative factor or None)."""
     from odl.deform import LinDeformFixedDisp, LinDeformFixedTempl
     ndim = space.ndim
+    explicit = bool(desc.get('spaces_explicit')) or \
+        space.dtype != field.space[0].dtype
+    if explicit:
+        strata.append('deform-spaces-explicit')
     if via == 'fixed_templ':
-        op = LinDeformFixedTempl(x, interp=interp_arg)
+        # documented default: template.space.real_space.tangent_bundle
+        op = LinDeformFixedTempl(x, domain=field.space, interp=interp_arg) \
+            if desc.get('spaces_explicit') else \
+            LinDeformFixedTempl(x, interp=interp_arg)
         arg, name = field, 'LinDeformFixedTempl'
+        if op.domain != field.space or op.range != space:
+            raise Violation(
+                'C15|deform|operator-spaces|{}|{}'.format(name, sig_tail),
+                'domain {!r} range {!r}'.format(op.domain, op.range))
     else:
-        op = LinDeformFixedDisp(field, interp=interp_arg)
+        # documented default: displacement.space[0]; a complex template
+        # space has to be named
+        op = LinDeformFixedDisp(field, templ_space=space,
+                                interp=interp_arg) if explicit else \
+            LinDeformFixedDisp(field, interp=interp_arg)
         arg, name = x, 'LinDeformFixedDisp'
+        if op.domain != space or op.range != space:
+            raise Violation(
+                'C15|deform|operator-spaces|{}|{}'.format(name, sig_tail),
+                'domain {!r} range {!r}'.format(op.domain, op.range))
     base_op = op
     sign, factor = 1.0, None
     if via == 'fixed_disp_inverse':
@@ -1480,11 +1986,30 @@ def deform_operator(desc, via, space, x, field, interp_arg, schemes, func_res,
                                                                sig_tail),
             'inverse has interp_byaxis {!r}, operator {!r}'.format(
                 op.interp_byaxis, tuple(schemes)))
+    prior = None
+    if desc.get('prior_call'):
+        # the operator was applied to another argument before
+        prior = op(arg * 0.5)
+        prior_v = np.array(prior.asarray(), copy=True)
+        strata.append('prior-call')
+    arg_v = [np.array(a, copy=True) for a in _leaf_arrays(arg)]
     res = op(arg)
     if res not in space:
         raise Violation('C15|deform|range|{}|{}'.format(name, sig_tail),
                         'result not in the template space')
     vals = np.array(res.asarray(), copy=True)
+    if prior is not None and (
+            np.shares_memory(prior.asarray(), res.asarray()) or
+            not _same_values(prior.asarray(), prior_v)):
+        raise Violation(
+            'C15|deform|earlier-result-changed|{}|{}'.format(name, sig_tail),
+            'the result of an earlier call changed with / shares memory '
+            'with the result of the next call')
+    if not all(_same_values(a, b)
+               for a, b in zip(_leaf_arrays(arg), arg_v)):
+        raise Violation(
+            'C15|deform|input-modified|{}|{}'.format(name, sig_tail),
+            'the operator changed its argument')
     if desc.get('out'):
         out = space.element()
         out.asarray()[...] = 31
@@ -1542,4 +2067,12 @@ REQUIRED_STRATA = (
      'lattice:generic', 'pt:mid', 'pt:lo', 'pt:hi', 'pt:node', 'pt:near',
      'nonuniform-axis', 'affine', 'target:same', 'target:refine2',
      'coords:subset', 'coords:none', 'output:complex',
-     'output:real-into-complex', 'one-point-axis'])
+     'output:real-into-complex', 'one-point-axis',
+     'reuse:any', 'reuse:dtype', 'reuse:astype', 'reuse:shape',
+     'reuse:domain', 'reuse:same', 'reuse:kwargs', 'reuse:func2',
+     'reuse-dtype:narrow-then-wide', 'reuse-dtype:wide-then-narrow',
+     'reuse-dtype:real-then-complex', 'reuse-dtype:complex-then-real',
+     'prior-call', 'direction:forward', 'direction:inverse',
+     'direction:adjoint', 'deform-spaces-explicit', 'out_dtype:default',
+     'array:1d-flat-vectorize', 'vector:out_dtype-given',
+     'vector:ufunc-member', 'vector:tuple_func_x1d', 'order:C', 'order:F'])
